@@ -8,8 +8,8 @@ import os
 import subprocess
 import sys
 
-REPO = "/repo"
-ENV = dict(os.environ, GOFLAGS="-mod=mod", GOPROXY="off", GOSUMDB="off", GOTOOLCHAIN="local")
+REPO = os.environ.get("VERIF_REPO", "/repo")
+ENV = dict(os.environ, GOFLAGS="-mod=mod", GOPROXY="off", GOSUMDB="off", GOTOOLCHAIN="local", VERIF_REPO=REPO)
 
 M = [
     # id, property, file, old, new, description
@@ -64,6 +64,16 @@ M = [
     ("C19-a", "C19", "pkg/cloudprovider/aws/aws.go", "ShouldDecrementDesiredCapacity: awsapi.Bool(true),", "ShouldDecrementDesiredCapacity: awsapi.Bool(false),", "terminate without decrement"),
     ("C19-b", "C19", "pkg/cloudprovider/aws/aws.go", "\t\tif !n.Belongs(node) {", "\t\tif false && !n.Belongs(node) {", "membership check skipped"),
     ("C19-c", "C19", "pkg/cloudprovider/aws/aws.go", "\tif n.TargetSize()-int64(len(nodes)) < n.MinSize() {", "\tif n.TargetSize()-int64(len(nodes)) < n.MinSize()-1 {", "minimum check off by one"),
+    ("C06-f", "C06", "pkg/controller/controller.go", "if time.Since(n.CreationTimestamp.Time) > nodeGroup.Opts.MaxNodeAgeDuration() {", "if time.Since(n.CreationTimestamp.Time) >= nodeGroup.Opts.MaxNodeAgeDuration() {", "max_node_age: > becomes >="),
+    ("C06-g", "C06", "pkg/controller/controller.go", "\t\tlen(untaintedNodes) < nodeGroup.Opts.MaxNodes\n}", "\t\tlen(untaintedNodes) <= nodeGroup.Opts.MaxNodes\n}", "starve trigger also at untainted == max_nodes"),
+    ("C06-h", "C06", "pkg/controller/controller.go", "return nodeGroup.Opts.ScaleOnStarve &&\n", "return (nodeGroup.Opts.ScaleOnStarve || true) &&\n", "scale_on_starve acts although the option is off"),
+    ("C06-i", "C06", "pkg/controller/controller.go", "\t\tnodesDelta = int(math.Max(float64(nodesDelta), 1))\n\t}\n\n\tif c.scaleOnMaxNodeAge", "\t\tnodesDelta = int(math.Max(float64(nodesDelta), 2))\n\t}\n\n\tif c.scaleOnMaxNodeAge", "starve forces two nodes"),
+    ("C06-j", "C06", "pkg/controller/controller.go", "case maxPercent > float64(nodeGroup.Opts.ScaleUpThresholdPercent):", "case maxPercent > float64(nodeGroup.Opts.ScaleUpThresholdPercent)+0.5:", "scale-up threshold shifted by half a percent"),
+    ("C03-c", "C03", "pkg/controller/controller.go", "\t\t\tstate.Opts.MinNodes = int(cloudProviderNodeGroup.MinSize())\n\t\t\tlog.Debugf(\"auto discovered min_nodes = %v for node group %v\", state.Opts.MinNodes, nodeGroupOpts.Name)\n\t\t\tstate.Opts.MaxNodes = int(cloudProviderNodeGroup.MaxSize())", "\t\t\tstate.Opts.MinNodes = int(cloudProviderNodeGroup.MinSize()) - 1\n\t\t\tlog.Debugf(\"auto discovered min_nodes = %v for node group %v\", state.Opts.MinNodes, nodeGroupOpts.Name)\n\t\t\tstate.Opts.MaxNodes = int(cloudProviderNodeGroup.MaxSize())", "auto-discovered minimum off by one"),
+    ("C02-d", "C02", "pkg/controller/scale_lock.go", "\tl.lockTime = time.Now()\n", "\tl.lockTime = time.Now().Add(-time.Second)\n", "lock taken one second in the past (released one second early)"),
+    ("C01-e", "C01", "pkg/controller/scale_down.go", "\tfor _, candidate := range opts.forceTaintedNodes {\n\t\tif k8s.NodeEmpty(candidate, opts.nodeGroup.NodeInfoMap) {", "\tfor _, candidate := range opts.forceTaintedNodes {\n\t\tif pods, _ := k8s.NodePodsRemaining(candidate, opts.nodeGroup.NodeInfoMap); pods <= 1 {", "force removal tolerates one remaining pod"),
+    ("C13-d", "C13", "pkg/controller/controller.go", "nodeCapacity, err := k8s.CalculateNodesCapacity(untaintedNodes, pods)", "nodeCapacity, err := k8s.CalculateNodesCapacity(append(untaintedNodes, taintedNodes...), pods)", "tainted nodes counted as capacity"),
+    ("C09-b", "C09", "pkg/controller/controller.go", "\t\t\tif node.Spec.Unschedulable {\n", "\t\t\tif node.Spec.Unschedulable && len(node.Spec.Taints) == 0 {\n", "only untainted cordoned nodes are set aside"),
     ("C20-a", "C20", "pkg/controller/node_group.go", "\tif pod.Spec.Affinity != nil &&\n\t\tpod.Spec.Affinity.NodeAffinity != nil &&\n", "\tif pod.Spec.Affinity != nil &&\n", "nil guard on NodeAffinity removed"),
     ("C20-b", "C20", "pkg/controller/controller.go", "\t\t\t\tlog.Error(\"Unable to get instance from cloud provider to determine registration lag, skipping \", node.Spec.ProviderID)", "\t\t\t\tlog.Fatal(\"Unable to get instance from cloud provider to determine registration lag, skipping \", node.Spec.ProviderID)", "log.Fatal on a per-node error"),
 ]
